@@ -828,7 +828,29 @@ func (ex *Exec) applyEffects(h *Heap, effs []Effect, l *Loop, guard Term) *Heap 
 					return !ghostToo && strings.HasPrefix(k, "GH:")
 				}
 				nh.gen.keepOld = func(k string) bool {
-					return keepEval && !specific[k] && !canWrite(k)
+					if !keepEval || specific[k] {
+						return false
+					}
+					if strings.HasPrefix(k, "F:") {
+						// some reachable function writes this field, but only in objects it allocates itself
+						if anyDyn || strings.HasPrefix(k, "F:anon") {
+							return false
+						}
+						for _, w := range ex.P.writersOf(q.so, "NF:"+k) {
+							for _, o := range origins {
+								if o != nil && ex.P.reaches(o, w) {
+									return false
+								}
+							}
+						}
+						for _, o := range origins {
+							if o != nil && ex.P.declaredWriter(q.so, o, k) {
+								return false
+							}
+						}
+						return true
+					}
+					return !canWrite(k)
 				}
 			}, l)
 			return nh
@@ -1167,6 +1189,11 @@ func (p *Prog) writersOf(so *Sorts, k string) []*ssa.Function {
 					if (strings.HasPrefix(key, "F:") || strings.HasPrefix(key, "G:")) && !seen[key] {
 						seen[key] = true
 						p.writers[key] = append(p.writers[key], f)
+					}
+					if strings.HasPrefix(key, "F:") && !fresh && !seen["NF:"+key] {
+						// the object written was not allocated by this activation
+						seen["NF:"+key] = true
+						p.writers["NF:"+key] = append(p.writers["NF:"+key], f)
 					}
 				}
 			}
